@@ -19,7 +19,7 @@ class C01(PureCheck):
     warm_every = 2
     rule = ("every attribute record (9 fg x 9 bg x {absent,False,True}^6; quick: all 5,184 records without "
             "explicit False + sampled False variants) built through fmtstr(text, **kwargs) with 7 texts "
-            "(empty, ASCII, controls, wide+combining, a combining mark / ZWJ alone in its run), one run of 4095 / 4096 / 5000 / 65537 characters, every subset of the styles switched on with the int 1 instead of True, runs of blanks only under every single attribute and fg + each other attribute, every C0 (without ESC) / DEL / C1 (without CSI) control character first, last and alone in a run, plus values that come out of the parser (FmtStr.from_str / fmtstr on every string of <=3 items over text and SGR / cursor-home sequences, closed or left open), plus multi-run values built with + (empty runs "
+            "(empty, ASCII, controls, wide+combining, a combining mark / ZWJ alone in its run), one run of 4095 / 4096 / 5000 / 65537 characters, sums sharing an already rendered left operand, every subset of the styles switched on with the int 1 instead of True, runs of blanks only under every single attribute and fg + each other attribute, every C0 (without ESC) / DEL / C1 (without CSI) control character first, last and alone in a run, plus values that come out of the parser (FmtStr.from_str / fmtstr on every string of <=3 items over text and SGR / cursor-home sequences, closed or left open), plus multi-run values built with + (empty runs "
             "included); str(f) is lexed and the token list validated by TLC (Sgr.tla stream terminal). "
             "distinct_nontrivial = distinct (attribute records of all runs, text lengths) with at least one "
             "rendered attribute")
@@ -96,6 +96,13 @@ class C01(PureCheck):
             for text in ([c, 97], [97, c], [c]):
                 yield {"runs": [[list(text), a]]}
                 yield {"runs": [[[120], a], [list(text), [0] * 8], [[121], [0, 2, 0, 0, 2, 0, 0, 0]]]}
+        # sums that share an already rendered left operand
+        for k in range(300 if tier == "quick" else 3000):
+            runs = []
+            for _ in range(rng.choice([2, 3, 3, 4])):
+                a = [rng.choice([0, 2, 5]), rng.choice([0, 0, 4])] + [rng.choice([0, 0, 2]) for _ in range(6)]
+                runs.append([enc.enc_text(rng.choice(["a", "xy", "b\n", ">>> ", "c"])), a])
+            yield {"runs": runs, "chain": 1 + k % 3}
         # every subset of the styles switched on with the int 1 (alone, with colours, next to a run that uses True)
         for k, st in enumerate(itertools.product((0, 2), repeat=6)):
             if any(st):
@@ -134,6 +141,18 @@ class C01(PureCheck):
             # escape sequences - open colours at the end, resets in the middle, a tolerated cursor-home
             raw = enc.dec_text(inp["raw"])
             f = FmtStr.from_str(raw) if inp["via"] else fmtstr(raw)
+        elif inp.get("chain"):
+            # leaves that were all rendered before any addition; the same left operand is used for two sums, and the
+            # recorded value is the second sum (chain 1) or the first one, rendered only after the second was made (chain 2)
+            leaves = [fmtstr(enc.dec_text(t), **enc.dec_atts(a)) for t, a in runs]
+            for x in leaves:
+                str(x)
+            first = leaves[0] + leaves[1]
+            second = leaves[0] + leaves[2 % len(leaves)]
+            third = first + leaves[-1]
+            f = (second, first, third)[inp["chain"] - 1]
+            if inp["chain"] == 3:
+                str(first), str(second)
         elif inp.get("ints"):
             # styles switched on with the int 1 instead of True (a flag computed as a count, a value read from JSON / argparse)
             for t, a in runs:
